@@ -6,7 +6,8 @@ RULE = ("llenc: images (noise, flat, alternating 0/max, gradient, random extreme
         "emit byte-identical DHT tables and entropy-coded data, and the real decoder (libjpeg and TurboJPEG) must return "
         "(s >> Pt) << Pt; lltj: TurboJPEG API with every packed-pixel layout, row order and pitch; class = op + precision band + outcome")
 TRUSTED = ["Model.Lossless / Model.Bits / Model.Huff are hand models of jclossls.c, jdlossls.c, jcdiffct.c, jddiffct.c, jclhuff.c, jdlhuff.c"]
-ASSUMPTIONS = ["all sampling factors are 1 in lossless mode (forced by jcmaster.c); single interleaved scan (default for <= 4 components)"]
+ASSUMPTIONS = ["all sampling factors are 1 in lossless mode (forced by jcmaster.c); the byte-level model covers the single interleaved scan (default for <= 4 components); "
+               "other scan layouts (one scan per component, partial interleaving) are exercised on the real code by llscan with the exact-reconstruction oracle"]
 
 
 def classify(op, R):
@@ -14,6 +15,8 @@ def classify(op, R):
     if p[0] == "llenc":
         P = int(p[1])
         return "llenc:P%s:psv%s:%s" % ("<=8" if P <= 8 else "<=12" if P <= 12 else "<=16", p[3], "ok" if R.startswith("dht") else R.split(" ")[0])
+    if p[0] == "llscan":
+        return "llscan:nc%s:l%s:%s" % (p[5], p[11], R.split(" ")[0])
     if p[0] == "lltj":
         return "lltj:pf%s:%s" % (p[5], R.split(" ")[0])
     return p[0]
@@ -33,6 +36,14 @@ def gen_ops(rng, tier):
         kind = rng.choice([0, 0, 0, 1, 2, 3, 4])
         cs = "ycc" if nc == 3 and rng.random() < .4 else "rgb"
         ops.append("llenc %d %d %d %d %d %d %d %d %d %s" % (P, Pt, psv, R, nc, w, h, kind, rng.randrange(1 << 20), cs))
+    # scan layouts other than one interleaved scan (real code, exact-reconstruction oracle through libjpeg and TurboJPEG)
+    for i in range(600 if big else 90):
+        P = rng.choice([2, 8, 8, 12, 16, rng.randint(2, 16)])
+        Pt = rng.choice([0, 0, 1, P - 1])
+        nc = rng.choice([2, 3, 3, 4])
+        h = rng.choice([1, 2, 3, 5, 8, 13])
+        ops.append("llscan %d %d %d %d %d %d %d %d %d %s %d" % (P, Pt, rng.randint(1, 7), rng.choice([0, 0, 1, 2, h]), nc, rng.choice([1, 2, 3, 5, 8, 17, 40]), h,
+                                                                rng.choice([0, 0, 1, 2, 3, 4]), rng.randrange(1 << 20), "ycc" if nc == 3 and rng.random() < .3 else "rgb", rng.choice([1, 1, 2, 3])))
     # boundary: 16-bit differences of exactly +-32768, width 1, height 1, 1024-wide rows in thorough
     for psv in range(1, 8):
         ops.append("llenc 16 0 %d 0 1 6 4 2 1 rgb" % psv)
